@@ -48,9 +48,24 @@ func (w *world) cacheStr(d *locate.VerifC09Dump) string {
 		if end == "" {
 			end = "+inf"
 		}
-		p = append(p, fmt.Sprintf("r%d@%d.%d[%s,%s)%s", e.ID, e.Ver, e.ConfVer, e.Start, end, ttlClass(e.TTL, now)))
+		p = append(p, fmt.Sprintf("r%d@%d.%d[%s,%s)%s%s", e.ID, e.Ver, e.ConfVer, e.Start, end, ttlClass(e.TTL, now), flagClass(e.SyncFlags)))
 	}
 	return "{" + strings.Join(p, " ") + "}"
+}
+
+// flagClass renders the reload-related sync flags of an entry (messages only).
+func flagClass(f int32) string {
+	s := ""
+	if f&locate.VerifC09FlagReloadOnAccess != 0 {
+		s += "!reload-on-access"
+	}
+	if f&locate.VerifC09FlagDelayedReloadPending != 0 {
+		s += "!delayed-pending"
+	}
+	if f&locate.VerifC09FlagDelayedReloadReady != 0 {
+		s += "!delayed-ready"
+	}
+	return s
 }
 
 func ttlClass(ttl, now int64) string {
@@ -94,7 +109,7 @@ func (w *world) checkLoc(api, k string, byEnd bool, l *locate.KeyLocation, err e
 	}
 	if !ok {
 		w.viol(api+":not-contained", fmt.Sprintf("%s returned %s which does not contain the key; cache before %s; cluster %s",
-			w.curOp, locStr(l), w.cacheStr(&w.prev), w.topoStr()))
+			w.curOp, locStr(l), w.cacheStr(&w.opPre), w.topoStr()))
 		return "VIOL"
 	}
 	return "ok:" + w.freshness(l)
@@ -381,4 +396,27 @@ func (w *world) canon() string {
 // nontrivial: at least two regions in the cluster and at least one cached entry.
 func (w *world) nontrivial() bool {
 	return len(w.cluster.GetAllRegions()) >= 2 && len(w.prev.Sorted) >= 1
+}
+
+// countReloadState: coverage of the reload-scheduled cache-state class (usable entries only).
+func (w *world) countReloadState() {
+	now := time.Now().Unix()
+	var f int32
+	for i := range w.prev.Sorted {
+		if e := &w.prev.Sorted[i]; e.TTL > now {
+			f |= e.SyncFlags
+		}
+	}
+	if f&locate.VerifC09FlagReloadOnAccess != 0 {
+		w.st.stOnAccess.Add(1)
+	}
+	if f&locate.VerifC09FlagDelayedReloadPending != 0 {
+		w.st.stPending.Add(1)
+	}
+	if f&locate.VerifC09FlagDelayedReloadReady != 0 {
+		w.st.stReady.Add(1)
+	}
+	if f&(locate.VerifC09FlagReloadOnAccess|locate.VerifC09FlagDelayedReloadPending|locate.VerifC09FlagDelayedReloadReady) != 0 {
+		w.st.stAnyReload.Add(1)
+	}
 }
